@@ -39,7 +39,7 @@ SIM_NOTE = ("Trusted base: the harness (recorder, oracle), tokio's paused clock 
             "allocator shim. Held = held on the executions produced (bounded, sampled), not verified.")
 
 def c07_jobs(tier):
-    jobs = [sim("c07-direct", "c07", require_counters=["mailbox_full_observations"])]
+    jobs = [sim("c07-direct", "c07", require_counters=["mailbox_full_observations", "empty_wakeups_mid_wait"])]
     if tier == "thorough":
         jobs.append(sim("c07-h2", "c07", transport="h2", require_counters=["mailbox_full_observations"]))
         jobs.append(asan_mt("c07-asan-mt", "c07", crash_property="C07"))
@@ -180,7 +180,7 @@ PROPERTIES = {
     "C19": {"level": "exploration", "jobs": c19_jobs, "engine": "flowcheck (native threads) + Miri",
             "technique": "runtime monitoring of a lock-free component under real threads: trace-based oracle (mutations serialised and shadowed under one mutex) with a logical lost-wake-up verdict, plus Miri's seeded scheduler, data-race and deadlock detection",
             "level_text": "Real OS threads drive wait_for_available_space() with a hand-written executor while mutator threads call inc/dec through a wrapper that appends every counter update to a trace under the same mutex as the call it shadows. A waiter that returned must have been able to observe messages < max and then bytes < max inside its window of the trace; once all mutators are done and the final counters are below both limits, a waiter that is parked with its waker not fired can never run again, which is decided logically without a timeout; scripts where a single dec frees capacity must release every parked waiter. 10^5 (quick) / 10^6 (thorough) jittered native trials plus 64 / 2000 Miri schedules with data-race, weak-memory and deadlock checking. A sample of interleavings, not all of them.",
-            "level_note": "Trusted base: the harness executor and trace wrapper (mutators are serialised against each other by the wrapper's mutex; waiters are not), std::thread scheduling, Miri's scheduler. Held = held on the interleavings produced.",
+            "level_note": "Trusted base: the harness executor and trace wrapper (in half of the trials mutators are serialised against each other by the wrapper's mutex, in the other half they overlap freely; waiters never take the mutex), std::thread scheduling, Miri's scheduler. Held = held on the interleavings produced.",
             "assumptions": ["FlowControl is not wired into the server; it is exercised as the free-standing public component it is"]},
     "C06": {"level": "exploration", "jobs": c06_jobs, "engine": "dvsim",
             "technique": "runtime monitoring at logical quiescence: non-destructive lost-wake-up monitor (hook stats) over seeded waiter/cancel/availability step sequences on a paused clock",
